@@ -223,6 +223,11 @@ pub fn mode_format(j: &J) -> String {
   let j1 = tree_json(&tree1);
   let mut fs: BTreeSet<String> = BTreeSet::new();
   features(&j1, &mut fs);
+  // source-derived: a backslash escape of a punctuation character (Mechdown removes the backslash from the text token)
+  {
+    let cs: Vec<char> = src.chars().collect();
+    if (1..cs.len()).any(|i| cs[i - 1] == '\\' && cs[i].is_ascii_punctuation()) { fs.insert("md-escape".into()); }
+  }
   let mut c1: BTreeMap<String, i64> = BTreeMap::new();
   census(&j1, &mut c1);
   for k in c1.keys() { fs.insert(k.clone()); }
